@@ -837,12 +837,31 @@ def extents_forwarded(fx):
                 if s_["rv"]["k"] == "agg" and s_["rv"].get("adt") == "libfs::Extent":
                     return True
         return any(builds_extent(d, tuple(seen) + (fnpath,)) for (_b, d, loc, via) in cg.out.get(fnpath, []) if loc)
+    def from_builder(l, depth=0):
+        """The value is the result (through plain moves) of a call to a function that builds an Extent."""
+        from cfg import whole_defs
+        if l is None or depth > 6:
+            return False
+        ds = whole_defs(f, l)
+        if len(ds) != 1:
+            return False
+        d = ds[0]
+        if d.is_term:
+            return d.node["k"] == "call" and builds_extent(q.names(d.node)[1])
+        rv = d.node["rv"]
+        if rv["k"] == "use" and not (op_place(rv["op"]) or {"p": 1}).get("p"):
+            return from_builder(op_local(rv["op"]), depth + 1)
+        return False
     pushes = []
     for bi, t in q.calls_to(f, "alloc::vec::Vec::<T, A>::push"):
         l = op_local(t["args"][1])
+        if from_builder(l):
+            pushes.append((bi, t))
+            continue
         atoms, _f, _s = Prov(f, through_agg=False).origins(l)
         if any(a.kind == "agg" and a.what == "libfs::Extent" for a in atoms) or \
-                any(a.kind == "call" and builds_extent(a.what) for a in atoms):
+                any(a.kind == "call" and (builds_extent(a.what) or (a.site is not None and a.site.is_term and
+                                                                    builds_extent(q.names(a.site.node)[1]))) for a in atoms):
             pushes.append((bi, t))
     bulk = []
     LOSSY_ADAPTORS = ("filter", "filter_map", "skip", "skip_while", "take", "take_while", "step_by", "map_while", "scan",
